@@ -91,25 +91,34 @@ func heldDatagrams(c *Ctx, r *Rng, kind string) {
 		}
 		conn.Write(bb)
 		got := map[uint16]string{}
-		read := func() {
-			conn.SetReadDeadline(time.Now().Add(2 * time.Second))
-			n, err := conn.Read(buf)
-			if err != nil {
-				return
+		// read until the reply with the wanted ID is there (late replies to earlier datagrams are skipped)
+		readFor := func(id uint16) {
+			deadline := time.Now().Add(3 * time.Second)
+			for time.Now().Before(deadline) {
+				if _, ok := got[id]; ok {
+					return
+				}
+				conn.SetReadDeadline(deadline)
+				n, err := conn.Read(buf)
+				if err != nil {
+					return
+				}
+				var rm dns.Msg
+				if rm.Unpack(buf[:n]) != nil || len(rm.Answer) != 1 {
+					if rm.Id == idA || rm.Id == idB {
+						got[rm.Id] = fmt.Sprintf("rcode=%d answers=%d", rm.Rcode, len(rm.Answer))
+					}
+					continue
+				}
+				got[rm.Id] = strings.Join(rm.Answer[0].(*dns.TXT).Txt, "")
 			}
-			var rm dns.Msg
-			if rm.Unpack(buf[:n]) != nil || len(rm.Answer) != 1 {
-				got[rm.Id] = fmt.Sprintf("rcode=%d answers=%d", rm.Rcode, len(rm.Answer))
-				return
-			}
-			got[rm.Id] = strings.Join(rm.Answer[0].(*dns.TXT).Txt, "")
 		}
-		read() // B's reply
+		readFor(idB)
 		close(ch)
 		mu.Lock()
 		delete(gate, idA)
 		mu.Unlock()
-		read() // A's reply
+		readFor(idA)
 		for _, q := range []*dns.Msg{qa, qb} {
 			total++
 			want := fmt.Sprintf("%d %s", q.Id, q.Question[0].Name)
